@@ -9,8 +9,9 @@ tasker.period written by an earlier / later tasker of the same tick) at tick k.
 (2) Hypothesis FloScript programs `framer .. be active in front|mid|back at p` with decimal tick
 and framer periods, bids with `at p'`, through the real builder, compared with the reference
 interpreter (exact rational time).
-Oracle (1): exact rational scheduler: tick n has time n*P; tasker due_0 = 0; it runs at
-tick n iff due <= n*P; after a run due += its current period; at most one run per tick; the
+Oracle (1): exact rational scheduler: tick n has time t0 + n*P (t0 = the mission start
+stamp given to the Skedder, from {0, 5, 2.5, 0.3, 100, 0.7}); tasker due_0 = t0; it runs at
+tick n iff due <= t0 + n*P; after a run due += its current period; at most one run per tick; the
 in-tick order is fronts + mids + backs in declaration order; an aborted tasker never runs
 again. Comparison is on tick indices (counted by the harness), never on float stamps.
 """
@@ -31,7 +32,10 @@ TICKS = ["0.0625", "0.125", "0.05", "0.1", "0.2", "0.25", "0.3", "0.5", "1.0"]
 ORDERS = ["front", "mid", "back"]
 
 
-def run_real(P, taskers, ticks, abort=None, change=None):
+T0S = ["0", "5", "2.5", "0.3", "100", "0.7"]     # mission start stamps (Skedder(stamp=t0))
+
+
+def run_real(P, taskers, ticks, abort=None, change=None, t0="0"):
     """taskers: [(period string, order)], abort: (index, tick) tasker aborts itself (yields ABORTED) at its
     first run at or after that tick; change: (by index, target index, tick, new period string): tasker `by`
     writes target.period during its run at that tick. -> list of (tick, name) runs in order"""
@@ -78,7 +82,7 @@ def run_real(P, taskers, ticks, abort=None, change=None):
         house.taskers.append(t)
         {"front": house.fronts, "mid": house.mids, "back": house.backs}[order].append(t)
     house.orderTaskables()
-    sk = skedding.Skedder(name="s", period=float(P), houses=[house])
+    sk = skedding.Skedder(name="s", period=float(P), stamp=float(t0), houses=[house])
     orig = house.store.changeStamp
 
     def cs(stamp):
@@ -91,16 +95,17 @@ def run_real(P, taskers, ticks, abort=None, change=None):
     return log
 
 
-def run_model(P, taskers, ticks, abort=None, change=None):
+def run_model(P, taskers, ticks, abort=None, change=None, t0="0"):
     P = Fraction(P)
+    t0 = Fraction(t0)
     n = len(taskers)
     period = [Fraction(p) for p, o in taskers]
     order = [i for o in ORDERS for i in range(n) if taskers[i][1] == o]
-    ready = [[i, Fraction(0)] for i in order]
+    ready = [[i, t0] for i in order]
     log = []
     t = 0
     while True:
-        now = t * P
+        now = t0 + t * P
         more = False
         for _ in range(len(ready)):
             i, due = ready.pop(0)
@@ -129,8 +134,9 @@ def check_case(case):
     P, taskers, ticks = case["P"], [tuple(x) for x in case["taskers"]], case["ticks"]
     abort = tuple(case["abort"]) if case.get("abort") else None
     change = tuple(case["change"]) if case.get("change") else None
-    real = run_real(P, taskers, ticks, abort, change)
-    model = run_model(P, taskers, ticks, abort, change)
+    t0 = case.get("t0", "0")
+    real = run_real(P, taskers, ticks, abort, change, t0)
+    model = run_model(P, taskers, ticks, abort, change, t0)
     fails = []
     if real != model:
         # first difference
@@ -144,8 +150,8 @@ def check_case(case):
             sig = "schedule-late-or-early"
         elif r and m and r[0] == m[0]:
             sig = "schedule-order-or-membership"
-        fails.append((sig, "P=%s taskers=%r ticks=%d abort=%r change=%r: first difference at event %d real=%r model=%r\nreal  %r\nmodel %r" % (
-            P, taskers, ticks, abort, change, k, r, m, real[:40], model[:40])))
+        fails.append((sig, "P=%s t0=%s taskers=%r ticks=%d abort=%r change=%r: first difference at event %d real=%r model=%r\nreal  %r\nmodel %r" % (
+            P, t0, taskers, ticks, abort, change, k, r, m, real[:40], model[:40])))
     # direct invariants on the real log
     seen = set()
     dead = set()
@@ -167,7 +173,9 @@ def grid_cases(nt, slice_i=0, slice_n=1):
                 idx += 1
                 if idx % slice_n != slice_i:
                     continue
-                yield {"P": P, "taskers": [[p, o] for p, o in zip(ps, orders)], "ticks": 24}
+                # the mission start stamp cycles through T0S with the configuration index (all of them for 1 tasker)
+                for t0 in (T0S if nt == 1 else [T0S[idx % len(T0S)]]):
+                    yield {"P": P, "taskers": [[p, o] for p, o in zip(ps, orders)], "ticks": 24, "t0": t0}
 
 
 def nontrivial(case):
@@ -230,8 +238,9 @@ def work(shard, seed, tier):
                 continue
             fails = check_case(case)
             nt = nontrivial(case)
-            acc.case(key=("grid", case["P"], tuple(map(tuple, case["taskers"]))), nontrivial=nt,
-                     classes=["grid-%d-taskers" % shard["nt"]] + (["decimal"] if nt else ["dyadic-multiple"]),
+            acc.case(key=("grid", case["P"], case["t0"], tuple(map(tuple, case["taskers"]))), nontrivial=nt,
+                     classes=["grid-%d-taskers" % shard["nt"]] + (["decimal"] if nt else ["dyadic-multiple"]) +
+                     (["start-stamp-nonzero"] if case["t0"] != "0" else []),
                      sample=case if k % 2000 == 1 else None)
             for sig, what in fails:
                 acc.fail(sig, what, case)
@@ -249,7 +258,7 @@ def work(shard, seed, tier):
         nt = draw(st.integers(1, 4))
         case = {"P": draw(st.sampled_from(TICKS)),
                 "taskers": [[draw(st.sampled_from(GRID)), draw(st.sampled_from(ORDERS))] for _ in range(nt)],
-                "ticks": draw(st.integers(4, 40))}
+                "ticks": draw(st.integers(4, 40)), "t0": draw(st.sampled_from(T0S))}
         if draw(st.booleans()):
             case["abort"] = [draw(st.integers(0, nt - 1)), draw(st.integers(0, 12))]
         if draw(st.booleans()):
@@ -275,7 +284,7 @@ def replay(case):
     return check_case(case)
 
 
-RULE = ("(1) exhaustive grid of tick period x per-tasker periods (binary-exact and decimal strings) x front/mid/back orders for 1-2 (quick: every 3rd of the "
+RULE = ("(1) exhaustive grid of tick period x per-tasker periods (binary-exact and decimal strings) x mission start stamp x front/mid/back orders for 1-2 (quick: every 3rd of the "
         "2-tasker grid; thorough: all, plus a slice of 3 taskers) recording taskers over 24 ticks, plus Hypothesis configurations with a self-abort and "
         "a period change written by another tasker; oracle = exact rational scheduler compared on tick indices; (2) Hypothesis FloScript programs with "
         "decimal tick/framer periods and `bid .. at p` vs the reference interpreter. non-trivial = a positive period that is decimal or not an integer "
